@@ -1048,7 +1048,7 @@ impl<'de> serde::de::Visitor<'de> for DataVisitor<'_> {
                     // temporary public IDs are deserialized exactly
                     // as they were serialized. So if there were any gaps,
                     // we need to deserialize these too:
-                    if self.dataset.data_len() > handle + pre_length {
+                    if self.dataset.data_len() > handle.saturating_add(pre_length) {
                         return Err(serde::de::Error::custom(
                             "unable to resolve temporary public identifiers for annotation data",
                         ));
